@@ -47,6 +47,7 @@ type desc struct {
 	Gen   string     `json:"gen"`
 	Wide  bool       `json:"wide,omitempty"` // beyond the exact grid: admitted by the faithful-run filter (wide.go)
 	Dup   bool       `json:"dup,omitempty"`  // contains exactly repeated points: coverage / every-point-used not judged
+	Spare int        `json:"spare,omitempty"` // the slice handed to BowyerWatson has cap = len + Spare (a window of a larger buffer)
 }
 
 type P struct{ x, y int64 }
@@ -392,17 +393,36 @@ type outcome struct {
 	pos   [][3]float64
 	sup   [][2]float64 // triangulation.SuperTriangle of the same input
 	alens []int        // length of every vertex attribute of the returned mesh (sorted by kind, name)
+	after [][2]float64 // the caller's slice pts[0:len] as it is AFTER the call
+	spareTouched bool  // the callee wrote into pts[len:cap] (recorded, not judged: plain Go append semantics)
 	crash string
 }
 
 func runImpl(d desc) (o outcome) {
-	pts := make([]vector2.Float64, len(d.Pts))
+	// the caller's slice: a window buf[:n] of a buffer with d.Spare further elements (sentinels), so that
+	// cap(pts) = len(pts) + d.Spare.  Everything the oracles compare with comes from d.Pts, never from
+	// this slice; the slice itself is inspected after the call.
+	n := len(d.Pts)
+	buf := make([]vector2.Float64, n+d.Spare)
 	for i, p := range d.Pts {
-		pts[i] = vector2.New(math.Ldexp(float64(p[0]+d.OffX), d.Shift), math.Ldexp(float64(p[1]+d.OffY), d.Shift))
+		buf[i] = vector2.New(math.Ldexp(float64(p[0]+d.OffX), d.Shift), math.Ldexp(float64(p[1]+d.OffY), d.Shift))
 	}
+	sentinel := func(i int) vector2.Float64 { return vector2.New(-7.25e77-float64(i), 3.5e-77*float64(i+1)) }
+	for i := n; i < len(buf); i++ {
+		buf[i] = sentinel(i)
+	}
+	pts := buf[:n]
 	defer func() {
 		if e := recover(); e != nil {
 			o.crash = fmt.Sprint(e)
+		}
+		for i := 0; i < n; i++ {
+			o.after = append(o.after, [2]float64{buf[i].X(), buf[i].Y()})
+		}
+		for i := n; i < len(buf); i++ {
+			if buf[i] != sentinel(i) {
+				o.spareTouched = true
+			}
 		}
 	}()
 	for _, v := range triangulation.SuperTriangle(append([]vector2.Float64(nil), pts...)) {
@@ -585,7 +605,7 @@ func classify(ps []P, tris [][3]int) (bool, string, int) {
 }
 
 // ---------------------------------------------------------------- one case
-func coqCase(d desc, o outcome, posInt [][3]int64, supHalf [][2]int64, needSpec, needCover bool) string {
+func coqCase(d desc, o outcome, posInt [][3]int64, supHalf [][2]int64, afterInt [][2]int64, needSpec, needCover bool) string {
 	var b strings.Builder
 	fmt.Fprintf(&b, "CTri %s %s %s [", hx.CoqBool(d.Model), hx.CoqBool(needSpec), hx.CoqBool(needCover))
 	for i, p := range d.Pts {
@@ -617,6 +637,14 @@ func coqCase(d desc, o outcome, posInt [][3]int64, supHalf [][2]int64, needSpec,
 	}
 	b.WriteString("]%Z ")
 	b.WriteString(hx.CoqListNat(o.alens))
+	b.WriteString(" [")
+	for i, p := range afterInt {
+		if i > 0 {
+			b.WriteByte(';')
+		}
+		fmt.Fprintf(&b, "(%d,%d)", p[0], p[1])
+	}
+	b.WriteString("]%Z")
 	return b.String()
 }
 
@@ -651,11 +679,12 @@ func runCase(run *hx.Run, d desc, kind string) {
 		S int
 		X int64
 		Y int64
-	}{d.Pts, d.Shift, d.OffX, d.OffY})
+		C int
+	}{d.Pts, d.Shift, d.OffX, d.OffY, d.Spare})
 	c.Key = string(kb)
 	if o.crash != "" {
 		c.GoFail = "Crash: " + o.crash
-		c.Coq = coqCase(desc{Pts: d.Pts}, outcome{}, nil, nil, true, true)
+		c.Coq = coqCase(desc{Pts: d.Pts}, outcome{}, nil, nil, nil, true, true)
 		run.Add(c)
 		return
 	}
@@ -677,6 +706,21 @@ func runCase(run *hx.Run, d desc, kind string) {
 				c.GoFail = "negative index"
 			}
 		}
+	}
+	// the caller's slice after the call, in grid units (a value that is not a grid value is an
+	// overwritten input: reported directly)
+	var afterInt [][2]int64
+	for i, p := range o.after {
+		x, okx := toUnit(p[0], d.Shift)
+		y, oky := toUnit(p[1], d.Shift)
+		if !okx || !oky {
+			c.GoFail = fmt.Sprintf("the caller's point %d was overwritten with (%v,%v) (spare capacity %d)", i, p[0], p[1], d.Spare)
+		}
+		afterInt = append(afterInt, [2]int64{x, y})
+	}
+	run.Count(fmt.Sprintf("spare-capacity:%d", d.Spare))
+	if o.spareTouched {
+		run.Count("callee-wrote-into-spare-capacity(not judged)")
 	}
 	// the super triangle in half grid units; anything else (not a half-unit value) is left out and
 	// then differs from the model's (correspondence only: the statement does not mention it)
@@ -728,9 +772,9 @@ func runCase(run *hx.Run, d desc, kind string) {
 	}
 	known := c.FailKey != ""
 	if c.GoFail != "" {
-		c.Coq = coqCase(desc{Pts: d.Pts}, outcome{}, nil, nil, true, true)
+		c.Coq = coqCase(desc{Pts: d.Pts}, outcome{}, nil, nil, nil, true, true)
 	} else {
-		c.Coq = coqCase(d, o, posInt, supHalf, true, !known && !d.Dup)
+		c.Coq = coqCase(d, o, posInt, supHalf, afterInt, true, !known && !d.Dup)
 	}
 	run.Count("gen:" + d.Gen)
 	switch n := len(ps); {
@@ -759,7 +803,7 @@ func runCase(run *hx.Run, d desc, kind string) {
 	d2 := d
 	d2.Model = false
 	c2 := hx.Case{Kind: kind + "-cover", Desc: d, Nontriv: false, Key: c.Key, FailKey: failKeyDrop}
-	c2.Coq = coqCase(d2, o, posInt, supHalf, false, true)
+	c2.Coq = coqCase(d2, o, posInt, supHalf, afterInt, false, true)
 	run.Add(c2)
 }
 
@@ -785,6 +829,7 @@ func main() {
 	// fixed corner cases: the input of the repaired defect (a near-unit square at scale 2^-7 and
 	// 2^-20: the pinned super triangle lay below it -> 0 triangles), the known-finding example, single
 	// triangles in both input orders, a point inside a triangle, a thin strip, a far offset, a sparse sliver
+	fixedNo := 0
 	for _, d := range []desc{
 		{Pts: [][2]int64{{0, 0}, {1, 0}, {1, 1}, {0, 2}}, Shift: -7, Model: true, Gen: "fixed"},
 		{Pts: [][2]int64{{0, 0}, {1, 0}, {1, 1}, {0, 2}}, Shift: -20, Model: true, Gen: "fixed"},
@@ -801,6 +846,8 @@ func main() {
 		{Pts: [][2]int64{{782, 788}, {888, 890}, {597, 601}, {113, 125}, {0, 0}, {582, 586}, {1173, 1171}, {253, 251}}, Shift: -10, Model: true, Wide: true, Gen: "fixed"},
 		{Pts: [][2]int64{{782, 788}, {888, 890}, {597, 601}, {113, 125}, {0, 0}, {582, 586}, {1173, 1171}, {253, 251}}, OffX: 1 << 20, OffY: -(1 << 18), Model: true, Wide: true, Gen: "fixed"},
 	} {
+		d.Spare = []int{0, 3, 1, 4, 16, 2}[fixedNo%6]
+		fixedNo++
 		runCase(run, d, "pts")
 	}
 	{ // a fixed wheel: 24 rim points on a slightly perturbed circle, the hub last (cavity of about 22
@@ -854,6 +901,7 @@ func main() {
 		default:
 			d = genDesc(r, r.Range(10, 40), true)
 		}
+		d.Spare = hx.Pick(r, []int{0, 0, 1, 2, 3, 4, 16})
 		runCase(run, d, "pts")
 	}
 	run.Finish()
